@@ -240,13 +240,21 @@ def main():
             nontrivial.add(hashlib.sha1(line.split(' ', 1)[1].encode()).hexdigest())
         if not eq:
             disagreements.append((c, mo, io))
-        f = fam.oracle(c, io, mo) if hasattr(fam, 'oracle') else None
+        try:
+            f = fam.oracle(c, io, mo) if hasattr(fam, 'oracle') else None
+        except Exception as ex:      # an observation the oracle cannot read is itself a failure of the case, never a crash
+            f = f'the observation has an unexpected shape ({type(ex).__name__}: {ex})'
         if f:
             oracle_failures.append((c, mo, io, f))
 
     if hasattr(fam, 'oracle_all'):
         byid = {cid: (meta[cid], mo, io) for cid, line, mo, io, eq in res}
-        for c, f in fam.oracle_all(byid):
+        try:
+            extra_failures = list(fam.oracle_all(byid))
+        except Exception as ex:
+            first = res[0]
+            extra_failures = [(meta[first[0]], f'the observations have an unexpected shape ({type(ex).__name__}: {ex})')]
+        for c, f in extra_failures:
             mo, io = byid[c['line'].split(' ', 1)[0]][1:]
             oracle_failures.append((c, mo, io, f))
     if args.show:
